@@ -7,3 +7,5 @@
 mod gridmap;
 #[cfg(kani)]
 mod leaves;
+#[cfg(kani)]
+mod connectivity;
